@@ -135,7 +135,9 @@ Proof.
     apply andb_true_iff in Hkv; destruct Hkv as [Hk Hv].
     cbn [flat_map app forallb]. rewrite IH by exact Hl. rewrite andb_true_r.
     change (no_nul [45;72]) with true. cbn [andb].
-    unfold header_line, no_nul in *. rewrite !forallb_app, Hk, Hv. reflexivity.
+    unfold header_line, no_nul in *. destruct (snd kv) as [|c0 v0] eqn:Esnd.
+    + rewrite forallb_app, Hk. reflexivity.
+    + rewrite !forallb_app, Hk, Hv. reflexivity.
   - unfold body_words. destruct (body r) as [[|c b]|]; try reflexivity.
     cbn [forallb]. rewrite Hb. reflexivity.
   - destruct (verify r); reflexivity.
@@ -161,17 +163,39 @@ Proof.
     rewrite IH by exact Hk. cbn [rev]. rewrite <- app_assoc. reflexivity.
 Qed.
 
+Lemma split_colon_none k : forall acc, no_colon k = true -> split_colon (k ++ [59]) acc = None.
+Proof.
+  induction k as [|c k IH]; intros acc H.
+  - reflexivity.
+  - cbn [no_colon forallb] in H. apply andb_true_iff in H; destruct H as [Hc Hk].
+    apply negb_true_iff in Hc. cbn [app split_colon]. rewrite Hc. apply IH. exact Hk.
+Qed.
+
+Lemma split_semicolon_app k : forall v acc, no_semicolon k = true ->
+  split_semicolon (k ++ 59 :: v) acc = Some (rev acc ++ k, v).
+Proof.
+  induction k as [|c k IH]; intros v acc H.
+  - cbn. rewrite app_nil_r. reflexivity.
+  - cbn [no_semicolon forallb] in H. apply andb_true_iff in H; destruct H as [Hc Hk].
+    apply negb_true_iff in Hc. cbn [app split_semicolon]. rewrite Hc.
+    rewrite IH by exact Hk. cbn [rev]. rewrite <- app_assoc. reflexivity.
+Qed.
+
 Lemma curl_header_line kv : header_name_ok kv = true -> header_value_nonblank kv = true ->
   curl_header (header_line kv) = Some (fst kv, strip_left [32;9;10;11;12;13] (snd kv)).
 Proof.
   unfold header_name_ok, header_value_nonblank, curl_header, header_line.
   destruct kv as [k v]; cbn [fst snd]. intros Hk Hv.
   destruct k as [|c k]; [discriminate|].
-  change ((c :: k) ++ [58; SP] ++ v) with ((c :: k) ++ 58 :: SP :: v).
-  rewrite (split_colon_app (c :: k) (SP :: v) []) by exact Hk.
-  cbn [rev app].
-  change (strip_left [32; 9; 10; 11; 12; 13] (SP :: v)) with (strip_left [32; 9; 10; 11; 12; 13] v).
-  destruct (strip_left [32; 9; 10; 11; 12; 13] v); [discriminate|reflexivity].
+  apply andb_true_iff in Hk; destruct Hk as [Hk Hs].
+  destruct v as [|c0 v0].
+  - rewrite (split_colon_none (c :: k) []) by exact Hk.
+    rewrite (split_semicolon_app (c :: k) [] []) by exact Hs. reflexivity.
+  - change ((c :: k) ++ [58; SP] ++ c0 :: v0) with ((c :: k) ++ 58 :: SP :: c0 :: v0).
+    rewrite (split_colon_app (c :: k) (SP :: c0 :: v0) []) by exact Hk.
+    cbn [rev app].
+    change (strip_left [32; 9; 10; 11; 12; 13] (SP :: c0 :: v0)) with (strip_left [32; 9; 10; 11; 12; 13] (c0 :: v0)).
+    destruct (strip_left [32; 9; 10; 11; 12; 13] (c0 :: v0)); [discriminate|reflexivity].
 Qed.
 
 Lemma curl_opts_headers hs : forall rest m acc b u,
@@ -198,7 +222,7 @@ Proof.
 Qed.
 
 Lemma reproduces known r :
-  header_names_ok known r = true -> no_empty_header_value known r = true ->
+  header_names_ok known r = true -> header_values_ok known r = true ->
   body_not_at r = true -> url_not_option r = true ->
   curl_sem (argv_of known r) = CurlSends (visible known r).
 Proof.
@@ -233,8 +257,18 @@ Definition r_empty_header : req :=
 Definition r_at_body : req :=
   {| method := [80;79;83;84]; url := W_url; body := Some [64;120]; verify := true; headers := [] |}.
 
-Lemma reproduces_refuted_empty_header :
-  curl_sem (argv_of [] r_empty_header) <> CurlSends (visible [] r_empty_header).
+(* printing every header as Name: value (the rule before the repair) loses a header with an empty value;
+   the present rule prints Name; and keeps it *)
+Lemma prefix_rule_refuted_empty_header :
+  curl_sem (argv_of_prefix [] r_empty_header) <> CurlSends (visible [] r_empty_header) /\
+  curl_sem (argv_of [] r_empty_header) = CurlSends (visible [] r_empty_header).
+Proof. vm_compute. split; [discriminate | reflexivity]. Qed.
+
+(* a non-empty value of blanks only is still dropped by curl (requests refuses to send such a value) *)
+Definition r_blank_header : req :=
+  {| method := [71;69;84]; url := W_url; body := None; verify := true; headers := [([88;45;65], [SP])] |}.
+Lemma reproduces_refuted_blank_header :
+  curl_sem (argv_of [] r_blank_header) <> CurlSends (visible [] r_blank_header).
 Proof. vm_compute. discriminate. Qed.
 
 Lemma reproduces_refuted_at_body :
@@ -245,11 +279,11 @@ Proof. vm_compute. discriminate. Qed.
 Definition r_ok : req :=
   {| method := [80;85;84]; url := [104;116;116;112;58;47;47;104;47;97;39;32;36;40;120;41];
      body := Some [123;34;97;34;58;32;34;39;36;96;92;10;34;125]; verify := false;
-     headers := [([88;45;65], [39;34;32;36;72;79;77;69]); ([65;99;99;101;112;116], [42;47;42])] |}.
+     headers := [([88;45;65], [39;34;32;36;72;79;77;69]); ([65;99;99;101;112;116], [42;47;42]); ([88;45;69], [])] |}.
 Lemma r_ok_hyps :
   safe_word (method r_ok) = true /\ req_no_nul [] r_ok = true /\ header_names_ok [] r_ok = true /\
-  no_empty_header_value [] r_ok = true /\ body_not_at r_ok = true /\ url_not_option r_ok = true /\
-  length (argv_of [] r_ok) = 9%nat.
+  header_values_ok [] r_ok = true /\ body_not_at r_ok = true /\ url_not_option r_ok = true /\
+  length (argv_of [] r_ok) = 11%nat.
 Proof. vm_compute. repeat split; reflexivity. Qed.
 
 (* ---- the printed report block ---- *)
